@@ -42,6 +42,19 @@ def time_decorate(rng, xml, ns=None, pretty=False):
     root = ET.fromstring(xml)
     ns = xmlgen.XTCE_NS if ns is None else ns
     q = (lambda t: f"{{{ns}}}{t}") if ns else (lambda t: t)
+    # time types on string / binary encodings (no scale or offset)
+    for tg, et in (("StringParameterType", "StringDataEncoding"), ("BinaryParameterType", "BinaryDataEncoding")):
+        for el in list(root.iter(q(tg))):
+            enc = el.find(q(et))
+            if enc is None or rng.random() > 0.15:
+                continue
+            new = ET.Element(q(rng.choice(["AbsoluteTimeParameterType", "RelativeTimeParameterType"])))
+            new.set("name", el.get("name"))
+            e = ET.SubElement(new, q("Encoding"))
+            if rng.random() < 0.5:
+                e.set("units", "s")
+            e.append(enc)
+            el.getparent().replace(el, new)
     for el in list(root.iter(q("IntegerParameterType"))):
         enc = el.find(q("IntegerDataEncoding"))
         if enc is None or rng.random() > (0.25 if len(enc) == 0 else 0.5):
